@@ -325,13 +325,18 @@ def thread_configs(tier):
             ('2 workers + consumer, preemption bound 1', 1, two_deep + two),
             ('3 workers + consumer, preemption bound 0 (free switches at '
              'blocking points)', 0, three)]
-  return [('1 worker + consumer, preemption bound 3', 3, one_deep),
-          ('1 worker + consumer, preemption bound 2', 2, one),
+  # thorough.  Measured (one process, happens-before cache): 1 worker at bound
+  # 3 = 3*10^4 executions for 2 records; 2 workers at bound 2 = 3*10^4 (1
+  # record) / 6-9*10^4 (2 records); 3 workers at bound 1 = 1-2*10^4.
+  return [('1 worker + consumer, preemption bound 3', 3, one_deep[1:]),
+          ('1 worker + consumer, preemption bound 2', 2, one_deep[:1] + one),
           ('2 workers + consumer (1 record), preemption bound 2 - with 2 or '
-           'more records bound 2 exceeds 10^5 executions per configuration, '
+           'more records bound 2 costs 6-9*10^4 executions per configuration, '
            'those stay at bound 1', 2, two_deep),
           ('2 workers + consumer, preemption bound 1', 1, two + two_more),
-          ('3 workers + consumer, preemption bound 1', 1, three)]
+          ('3 workers + consumer, preemption bound 1', 1, three[:3]),
+          ('3 workers in a later stage + consumer, preemption bound 0 (bound 1 '
+           'costs 2*10^4 executions)', 0, three[3:])]
 
 
 # =============================================================================
@@ -357,7 +362,7 @@ def interleaved_configs(tier):
 
 # =============================================================================
 
-SPLIT = {'quick': 4, 'thorough': 12}   # subtrees per E1 configuration (each
+SPLIT = {'quick': 4, 'thorough': 4}    # subtrees per E1 configuration (each
                                        # has its own happens-before cache)
 
 
